@@ -645,6 +645,11 @@ Definition spec_map (e : entries) (m : meth) (args : list arg) : res value :=
   | M_replace, [a] =>
       bind (arg_f1 a) (fun f => bind (f (VMap c)) (fun r =>
         match r with VMap rep => Ok (VMap (fm_replace c (fm_canon rep))) | _ => Err None end))
+  | M_map, [a] => bind (arg_f2 a) (fun f => bind (mm_map f c) (fun r => Ok (VMap r)))
+  | M_accept, [a] => bind (arg_f2 a) (fun f => bind (mm_accept f c) (fun r => Ok (VMap r)))
+  | M_combine, [o; a] =>
+      bind (arg_f2 a) (fun f => bind (arg_val o) (fun ov =>
+        match ov with VMap other => bind (mm_combine f c other) (fun r => Ok (VMap r)) | _ => Err None end))
   | M_observe, AV (VMap other) :: keys =>
       bind (arg_strs keys) (fun ks =>
       bind (map_to_string c) (fun txt =>
